@@ -1,7 +1,7 @@
 """C16 precision formatting: rounding uses the configured default mode and the number's own sign
 (PROV-FMTROUND), the padding limit gates padding, and formatter flags never reach the digits."""
 import re
-from facts import cdef, cres
+from facts import cdef, cres, strip_lt
 from rules import prov, provrules as R, units
 
 FLAG_GETTERS = re.compile(r"fmt::Formatter::(width|fill|align|sign_plus|sign_minus|sign_aware_zero_pad|flags|alternate|options)$")
@@ -111,6 +111,54 @@ def bounded_fill(rep, F, names, rule='BOUNDED-FILL'):
     return n
 
 
+def pad_whole(rep, F, names, rule='FLAGS'):
+    """"width, fill, alignment, zero padding and '+' only add padding around the numeral": Formatter::pad_integral computes the
+    padding from the text it is handed, so on a path that calls it nothing else may be written to the same Formatter (a
+    suffix written afterwards - an exponent, say - would sit outside the width computation)"""
+    n = 0
+    WRITE = re.compile(r'fmt::Formatter(<[^>]*>)?::(write_str|write_fmt|write_char|pad)$|fmt::Write::(write_str|write_fmt|write_char)$')
+    for nme in sorted(names):
+        fn = F.fns[nme]
+        pads = [(b, t) for b, t in fn.calls() if prov.strip_args(cdef(t)).endswith('Formatter::pad_integral')]
+        if not pads:
+            continue
+        n += 1
+        key = fn.key + ':numeral-handed-over-whole'
+        # blocks reachable from / reaching a pad_integral call
+        succ = {b: [x for x in fn.succ(b) if x in fn.live_blocks()] for b in fn.live_blocks()}
+        pred = {}
+        for b, xs in succ.items():
+            for x in xs:
+                pred.setdefault(x, []).append(b)
+
+        def closure(starts, rel):
+            seen, st = set(), list(starts)
+            while st:
+                x = st.pop()
+                for y in rel.get(x, []):
+                    if y not in seen:
+                        seen.add(y)
+                        st.append(y)
+            return seen
+        after = closure([b for b, _ in pads], succ)
+        before = closure([b for b, _ in pads], pred)
+        bad = None
+        for b, t in fn.calls():
+            d = prov.strip_args(cdef(t))
+            if not WRITE.search(d) or not t['args']:
+                continue
+            ty = strip_lt((t['args'][0].get('pl', {}).get('ty') or t['args'][0].get('ty') or ''))
+            if 'Formatter' not in ty:
+                continue          # writing into a local String / buffer is how the numeral is assembled
+            if b in after or b in before:
+                bad = (d.split('::')[-1], t['loc']['line'], 'after' if b in after else 'before')
+        if bad:
+            rep.violation(rule, key, 'the Formatter is also written to with %s %s pad_integral on the same path: that text is outside the width / fill / zero-padding computation, so the flags no longer wrap the whole numeral' % (bad[0], bad[2]), fn.where(bad[1]))
+        else:
+            rep.ok(rule, key, 'pad_integral is the only write to the Formatter on its paths', fn.where())
+    return n
+
+
 def common_pad_integral(rep, F, E, names):
     # sign handed to pad_integral derives from the number's sign
     n_pad = 0
@@ -190,6 +238,8 @@ def run(ctx):
     rep.floor('in-place digit shifts followed by a clear', nmc, 1)
     rep.floor('functions consulting the padding limit', nb, 1)
     n_pad = common_pad_integral(rep, F, E, names)
+    n_pw = pad_whole(rep, F, names)
+    rep.floor('functions handing the numeral to pad_integral', n_pw, 3)
     rep.floor('formatting rounding sinks', n4, 2)
     rep.floor('calls scanned on formatting paths', nc, 150)
     rep.floor('pad_integral calls', n_pad, 3)
